@@ -171,6 +171,9 @@ WRAP_VOID(fftw_execute, 0, (const void *p), (p))
 WRAP_VOID(fftw_destroy_plan, sched::PLANNER, (void *p), (p))
 void *fftw_plan_dft_r2c_1d(int n, double *in, void *out, unsigned flags) { static void *(*real)(int, double *, void *, unsigned) = (void *(*)(int, double *, void *, unsigned))dlsym(RTLD_NEXT, "fftw_plan_dft_r2c_1d"); sched::point("fftw_plan_dft_r2c_1d:pre", sched::PLANNER); void *r = real(n, in, out, flags); sched::leave("planned"); sched::point("fftw_plan_dft_r2c_1d:post", 0); return r; }
 void *fftw_plan_dft_c2r_1d(int n, void *in, double *out, unsigned flags) { static void *(*real)(int, void *, double *, unsigned) = (void *(*)(int, void *, double *, unsigned))dlsym(RTLD_NEXT, "fftw_plan_dft_c2r_1d"); sched::point("fftw_plan_dft_c2r_1d:pre", sched::PLANNER); void *r = real(n, in, out, flags); sched::leave("planned"); sched::point("fftw_plan_dft_c2r_1d:post", 0); return r; }
+// coarse points inside long initialisation loops (trigonometric tables are filled with thousands of libm calls): every 256th call of a thread
+double cos(double x) noexcept { static double (*real)(double) = (double (*)(double))dlsym(RTLD_NEXT, "cos"); static thread_local unsigned cnt = 0; if (sched::managed() && (++cnt & 255) == 0) sched::point("libm", 0); return real(x); }
+double sin(double x) noexcept { static double (*real)(double) = (double (*)(double))dlsym(RTLD_NEXT, "sin"); static thread_local unsigned cnt = 0; if (sched::managed() && (++cnt & 255) == 0) sched::point("libm", 0); return real(x); }
 // API entry points that touch per-thread scratch or temporarily modify their input
 struct TorusPolynomial; struct IntPolynomial; struct LagrangeHalfCPolynomial; struct TGswParams;
 WRAP_VOID(tGswTorus32PolynomialDecompH, 0, (IntPolynomial *r, const TorusPolynomial *s, const TGswParams *p), (r, s, p))
